@@ -43,7 +43,10 @@ ROUTE_FORMS = gen.FORMS + ["csr_zeros", "csc_zeros", "coo_zeros",
 
 @st.composite
 def routes(draw, untyped, equal_totals):
-    extra = []
+    # rename every ID of an axis to its successor's name, then back: the
+    # same content again, reached through two re-keyings of the lookup
+    extra = [st.builds(lambda a, ip: {"op": "rotate_ids2", "axis": a,
+                                      "inplace": ip}, ops.AX, st.booleans())]
     if untyped:
         extra.append(st.just({"op": "transpose2"}))
     if equal_totals is not None:
@@ -110,6 +113,14 @@ def strategy(tier):
 def _apply_read(t, op):
     if op["op"] == "transpose2":
         return t.transpose().transpose()
+    if op["op"] == "rotate_ids2":
+        ids = [str(i) for i in t.ids(axis=op["axis"])]
+        if len(ids) < 2:
+            return t
+        rot = {ids[k]: ids[(k + 1) % len(ids)] for k in range(len(ids))}
+        back = {v: k for k, v in rot.items()}
+        t = t.update_ids(rot, axis=op["axis"], inplace=op["inplace"])
+        return t.update_ids(back, axis=op["axis"], inplace=op["inplace"])
     if op["op"] == "subsample_full":
         return t.subsample(op["n"], axis=op["axis"], seed=op["seed"])
     return ops.apply_op(t, op)
